@@ -3,6 +3,7 @@ import ElaVerif.Lemmas.Wire
 import ElaVerif.Lemmas.WireTokens
 import ElaVerif.Gen.C23
 import ElaVerif.Model.CheckpointDriver
+import ElaVerif.Lemmas.WalletCont
 /-!
 # C23 — saved state checkpoints are lossless
 
@@ -13,9 +14,12 @@ from the read-token stream of the type's `Deserialize`, regenerated from the Go 
 run with every callee inlined; the theorems below hold for every schema, hence for whatever the
 source currently says.
 
-`C23_restore_partial`: the "restore then continue = straight run" half of the property is only
-stated for an abstract step function (any deterministic `step` over the serialized state); the
-tie of `step` to the node's block processing is the subject of C21/C22, not established here.
+The "restore then continue = straight run" half: proved for the wallet coin checkpoint driven by a
+model of the checkpoint manager's save / promote / restore protocol (`C23_wallet_restore_continue`,
+model tied to the real `checkpoint.Manager` on real files by the `wcont` ops); for the consensus-state
+checkpoints `C23_restore_partial` states it for an abstract step function only (any deterministic
+`step` over the serialized state) — the tie of `step` to the node's block processing is the subject
+of C21/C22, not established here.
 -/
 namespace ElaVerif.C23
 open ElaVerif.Bytes ElaVerif.Wire ElaVerif.WireTokens
@@ -163,6 +167,39 @@ theorem C23_wallet_roundtrip (v : Val) (rest : Bytes) (h : wf walletTy v = true)
     decode walletTy (encode walletTy v ++ rest) = some (v, rest) :=
   decode_encode walletTy v rest h
 
+/-! ## restore-then-continue through the checkpoint manager (wallet coin checkpoint) -/
+
+open ElaVerif.WalletCont in
+/-- Restore then continue equals the straight run, for the model of the checkpoint manager's
+    save / promote / restore protocol (`mstep`: skip blocks the checkpoint covers, save every 720 blocks,
+    promote the previous save to the default file one period later; `restart`: a fresh checkpoint loads
+    the default file) driving the wallet coin checkpoint (`applyBlock`): for every block sequence with
+    increasing positive heights and every interruption point `k`, the process that is stopped after `k`
+    blocks, restarted from whatever the data directory holds and fed the sequence again ends in the state
+    of the process that was never stopped — and that state is all blocks applied in order.
+    The model is tied to `core/checkpoint` + `wallet` by the `wcont` ops, which run the real Manager on
+    real files. -/
+theorem C23_wallet_restore_continue (bs : List Block) (k : Nat)
+    (hs : bs.Pairwise (fun a b => a.h < b.h)) (hpos : ∀ b ∈ bs, 0 < b.h) :
+    (interrupted bs k).live = (run .fresh bs).live ∧
+    (run .fresh bs).live = bs.foldl applyBlock .init :=
+  ⟨restore_then_continue bs k hs hpos, straight_live bs hs hpos⟩
+
+open ElaVerif.WalletCont in
+/-- every `wcont` op of the stream is an instance (blocks `1 … N`) -/
+theorem C23_wallet_restore_continue_ops (n k : Nat) (es : List (Nat × WTx)) :
+    (interrupted (blocksOf n es) k).live = (run .fresh (blocksOf n es)).live :=
+  wcont_ops_agree n k es
+
+open ElaVerif.WalletCont in
+/-- non-vacuity: a coin created at height 700; interrupted after the block at height 1500 the new process
+    starts from the default file holding height 720 (promoted at 1440) and still ends with the coin -/
+theorem C23_wallet_restore_continue_witness :
+    let tx : WTx := ⟨[1], [], [some [0x1f, 1]]⟩
+    let bs : List Block := [⟨700, [tx]⟩, ⟨720, []⟩, ⟨1440, []⟩, ⟨1500, []⟩, ⟨2160, []⟩]
+    ((run .fresh (bs.take 4)).dflt.map (·.1) = some 720) ∧
+    (interrupted bs 4).live.coins = [⟨([1], 0), [0x1f, 1]⟩] := by decide +kernel
+
 /-! ## regenerated facts -/
 
 /-- no checkpoint reader sizes a slice or a map by a count read from the file (regenerated list of the
@@ -188,7 +225,8 @@ theorem C23_gen_derived :
 
 /-- the DPoS `CheckPoint` is decodable except inside its `ArbiterMember` lists / maps (an interface
     dispatched on a type byte), the mempool checkpoint except inside its transaction map; the wallet
-    checkpoint has an owned-coins object outside any list and stays undecodable -/
+    checkpoint's own stream has the owned-coins object outside any list — it is decoded with the
+    hand-tied `walletTy` instead (wallet section above) -/
 theorem C23_gen_partial :
     (Gen.C23.streams.filter (fun s => hasFail (ofToks s.de) && !hasFailOutsideList (ofToks s.de))).map (·.name) =
       ["dpos.CheckPoint", "mempool.txPoolCheckpoint"] := by decide +kernel
